@@ -66,6 +66,7 @@ def run_core_property(ctx, module, kinds, oracles, quick, thorough, rule, extra_
                         + (["add_model_mets (one metabolite: Core.addMet)"] if "add_model_mets" in stats.get("op_hist", {}) else [])
                         + (["rm_mets (one metabolite, destructive or not: Core.rmMet / Core.rmMetD)"] if "rm_mets" in stats.get("op_hist", {}) else [])
                         + (["imul (reaction *= k, k != 0: Core.imul)"] if "imul" in stats.get("op_hist", {}) else [])
+                        + (["remove_genes (outside a context, with / without remove_reactions: Core.removeGenes)"] if "remove_genes" in stats.get("op_hist", {}) else [])
                         + (["add_boundary (exchange / demand / sink of a metabolite of the model: Core.addBoundary)"] if "add_boundary" in stats.get("op_hist", {}) else [])
                         + (["copy / deepcopy / pickle / solver switch outside a context (Core.observe on the value state: the new object's content and raw problem equal the old one's)"] if any(k in stats.get("op_hist", {}) for k in ("copy", "deepcopy", "pickle", "switch_solver")) else [])
                         + (["slim_optimize / reaction.copy() / a + b (Core.observe: nothing changes)"] if any(k in stats.get("op_hist", {}) for k in ("slim_optimize", "rcopy", "radd")) else []),
